@@ -45,7 +45,8 @@ Blocks(t, n) == IF n = 0 \/ t = "MESS" THEN <<>>
 \* unformatted: payload byte count of every data record
 FramesU(t, w, n) == LET b == Blocks(t, n) IN [i \in 1..Len(b) |-> b[i] * ElemBytes(t, w)]
 HeaderU == 4 + 16 + 4
-DataBytesU(t, w, n) == LET f == FramesU(t, w, n) IN SumSeq([i \in 1..Len(f) |-> f[i] + 8])
+\* constructive definition (sum over the records) ...
+DataBytesU_sum(t, w, n) == LET f == FramesU(t, w, n) IN SumSeq([i \in 1..Len(f) |-> f[i] + 8])
 
 \* formatted: columns per line and characters per column
 Cols(t, w) == CASE t = "INTE" -> 6 [] t = "REAL" -> 4 [] t = "DOUB" -> 3 [] t = "LOGI" -> 25
@@ -55,10 +56,29 @@ Width(t, w) == CASE t = "INTE" -> 12 [] t = "REAL" -> 17 [] t = "DOUB" -> 23 [] 
 \* one block of k elements: k columns and a newline after every (possibly partial) row
 BlockCharsF(t, w, k) == k * Width(t, w) + CeilDiv(k, Cols(t, w))
 \* number of elements on each line of the data part (the harness' scanner reports exactly this)
-RECURSIVE LinesOfBlock(_, _)
-LinesOfBlock(k, c) == IF k = 0 THEN <<>> ELSE <<Min2(k, c)>> \o LinesOfBlock(k - Min2(k, c), c)
+LinesOfBlock(k, c) == [j \in 1..CeilDiv(k, c) |-> IF j * c <= k THEN c ELSE k - (j - 1) * c]
 HeaderF == 30 + 1
-DataBytesF(t, w, n) == LET b == Blocks(t, n) IN SumSeq([i \in 1..Len(b) |-> BlockCharsF(t, w, b[i])])
+DataBytesF_sum(t, w, n) == LET b == Blocks(t, n) IN SumSeq([i \in 1..Len(b) |-> BlockCharsF(t, w, b[i])])
+
+\* closed forms, by index, of what a scan of the data part must find:
+\* unformatted - payload bytes of record j; formatted - elements on line j
+NumBlocks(t, n) == IF t = "MESS" THEN 0 ELSE CeilDiv(n, BlockElems(t))
+ElemsInBlock(t, n, q) == IF q * BlockElems(t) <= n THEN BlockElems(t) ELSE n - (q - 1) * BlockElems(t)
+NumFramesU(t, n) == NumBlocks(t, n)
+FrameAtU(t, w, n, j) == ElemsInBlock(t, n, j) * ElemBytes(t, w)
+LinesPerFullBlock(t, w) == CeilDiv(BlockElems(t), Cols(t, w))
+NumLinesF(t, w, n) == IF t = "MESS" \/ n = 0 THEN 0
+                      ELSE (n \div BlockElems(t)) * LinesPerFullBlock(t, w)
+                           + CeilDiv(n % BlockElems(t), Cols(t, w))
+LineAtF(t, w, n, j) == LET q == (j - 1) \div LinesPerFullBlock(t, w) + 1      \* block of line j
+                           r == (j - 1) % LinesPerFullBlock(t, w)               \* lines before it in the block
+                           k == ElemsInBlock(t, n, q)
+                       IN IF (r + 1) * Cols(t, w) <= k THEN Cols(t, w) ELSE k - r * Cols(t, w)
+
+\* ... and closed forms (no recursion, usable for arrays of any length);
+\* LayoutLaws states that the two agree
+DataBytesU(t, w, n) == IF t = "MESS" THEN 0 ELSE n * ElemBytes(t, w) + 8 * NumBlocks(t, n)
+DataBytesF(t, w, n) == IF t = "MESS" THEN 0 ELSE n * Width(t, w) + NumLinesF(t, w, n)
 
 Header(fmt) == IF fmt THEN HeaderF ELSE HeaderU
 DataBytes(fmt, t, w, n) == IF fmt THEN DataBytesF(t, w, n) ELSE DataBytesU(t, w, n)
@@ -127,4 +147,14 @@ LayoutLaws(fmt, t, w, n) ==
     /\ \A i \in 1..Len(Blocks(t, n)) : Blocks(t, n)[i] \in 1..BlockElems(t)
     /\ \A i \in 1..(Len(Blocks(t, n)) - 1) : Blocks(t, n)[i] = BlockElems(t)
     /\ ImplSize(fmt, t, w, n) = DataBytes(fmt, t, w, n)
+    /\ DataBytesU(t, w, n) = DataBytesU_sum(t, w, n)
+    /\ DataBytesF(t, w, n) = DataBytesF_sum(t, w, n)
+\* the by-index closed forms agree with the constructive layout
+FormLaws(fmt, t, w, n) ==
+    /\ FramesU(t, w, n) = [j \in 1..NumFramesU(t, n) |-> FrameAtU(t, w, n, j)]
+    /\ LET b == Blocks(t, n)
+           lines == [i \in 1..Len(b) |-> LinesOfBlock(b[i], Cols(t, w))]
+       IN /\ SumSeq([i \in 1..Len(b) |-> Len(lines[i])]) = NumLinesF(t, w, n)
+          /\ \A i \in 1..Len(b) : \A jj \in 1..Len(lines[i]) :
+                lines[i][jj] = LineAtF(t, w, n, (i - 1) * LinesPerFullBlock(t, w) + jj)
 =============================================================================
